@@ -711,7 +711,20 @@ class C08(Check):
 
     def cases(self, rng: random.Random, tier: str, shard: int, nshards: int) -> Iterator[Any]:
         while True:
-            yield gen_c08_case(rng)
+            case = gen_c08_case(rng)
+            # text holding an unpaired surrogate (a string cut in the middle of an emoji): JSON escapes it and pickle
+            # keeps it, so with the Proxy formatter it arrives unchanged.  (JSONFormatter goes through pydantic's JSON
+            # text encoder, which refuses it at send time - loud, and not generated.)  Chosen from a stream of its
+            # own, so that every other choice of the case stays what it was for the seed.
+            rng_ls = random.Random(repr(sorted(case["supplied"])) + str(len(case["params"])) + case["fmt"] + str(case["validate"]) + str(case["labels"]))
+            if case["fmt"] in ("proxy+json", "proxy+pickle") and rng_ls.random() < 0.5:
+                anns = {p_["name"]: p_.get("ann") for p_ in case["params"]}
+                for name_, sv in case["supplied"].items():
+                    if isinstance(sv.get("v"), str) and anns.get(name_) in ("str", "Any", "none") and rng_ls.random() < 0.5:
+                        sv["v"] = rng_ls.choice(["cut emoji \ud83d", "\udc00", "a\ud800z", sv["v"] + "\udfff"])
+                        case["lone_surrogate"] = True
+                        break
+            yield case
 
     def run_case(self, spec: Dict[str, Any]) -> CaseResult:
         cr = CaseResult()
